@@ -195,6 +195,14 @@ class PopAdapter(Adapter):
         for i in range(self.n_ids):
             for d in range(self.D):
                 out['psi[%d,%d]' % (i, d)] = psi[i][d]
+        # (what the hierarchical likelihood asks for first: the bottom-level
+        # values with the pooled / heterogeneous dimensions filled in)
+        eta = obj.compute_individual_parameters(xa, obs, return_eta=True,
+                                                **kw)
+        out['eta shape'] = tuple(np.shape(eta))
+        for i in range(np.shape(eta)[0]):
+            for d in range(np.shape(eta)[1]):
+                out['eta[%d,%d]' % (i, d)] = eta[i][d]
         if B.symbolic and 'hetero' not in self.kinds:
             B.new_rng()
             kw2 = {}
